@@ -10,7 +10,8 @@ RULE = (
     "synthetic curve set with genuinely composition- and temperature-dependent permeances: 1 curve (modelling temperature "
     "equal to or different from the curve's) or 2-3 curves, mass or molar abscissae, initial feed as mass or mole "
     "fraction, with / without initial permeances (3 units), all permeate modes, isothermal / self-cooling / programme, "
-    "orders 0..2. The find_best_fit and calculate_activation_energy calls made INSIDE the model are recorded. "
+    "orders 0..2; 15 % of the cases use a membrane, curve set and mixture shipped with the repository (loaded from a copy). "
+    "The find_best_fit and calculate_activation_energy calls made INSIDE the model are recorded. "
     "non-trivial = the run returned with >= 2 steps; distinct = distinct inputs"
 )
 ASSUMPTIONS = [
@@ -33,7 +34,18 @@ def coeffs(f):
 
 
 def run_shard(spec, rep):
+    import shutil
+    import tempfile
+
     only = spec.get("only")
+    spec = dict(spec, bundled_dir=tempfile.mkdtemp(prefix="pvmon_c05_"))
+    try:
+        _run(spec, rep, only)
+    finally:
+        shutil.rmtree(spec["bundled_dir"], ignore_errors=True)
+
+
+def _run(spec, rep, only):
     for index in range(spec["n"]):
         if only is not None and index != only:
             continue
@@ -55,6 +67,33 @@ def one_case(rep, spec, index):
     kind = rng.choice(["non_ideal_isothermal_process", "non_ideal_non_isothermal_process", "non_ideal_diffusion_curve"])
     sc = proc.Scenario(rng, kinds=[kind if kind != "non_ideal_diffusion_curve" else "non_ideal_isothermal_process"],
                        nonideal_orders=2 if rng.random() < 0.3 else 1, max_steps=10)
+    bundled = None
+    if rng.random() < 0.15 and spec.get("bundled_dir"):
+        # real data: a membrane shipped with the repository (loaded from a copy), its own curve set and mixture
+        from pyvaporation.pervaporation import Pervaporation
+
+        mems = gen.load_bundled(spec["bundled_dir"])
+        if mems:
+            mem = rng.choice(mems)
+            cs = rng.choice(mem.diffusion_curve_sets)
+            sc.membrane, sc.curve_set, sc.mix = mem, cs, cs.diffusion_curves[0].mixture
+            sc.mdesc, sc.cs_desc = sc.mix.name, {"bundled": f"{mem.name}/{cs.name}", "curves": len(cs.diffusion_curves)}
+            sc.pv = Pervaporation(mem, sc.mix)
+            sc.initial_permeances = None if rng.random() < 0.5 else sc.initial_permeances
+            if sc.initial_permeances is not None:
+                sc.initial_permeances = (gen.permeance_in_units(0.02, "kg/(m2*h*kPa)", sc.mix.first_component),
+                                         gen.permeance_in_units(0.0004, "SI", sc.mix.second_component))
+            if mem.ideal_experiments is None or rng.random() < 0.5:
+                sc.t0 = cs.diffusion_curves[0].feed_temperature  # no activation energies available: model at the curve temperature
+            sc.x0 = gen.gen_composition(rng, sc.mix, edge=0.05)
+            sc.orders = {k: min(v, 1) for k, v in sc.orders.items()}
+            sc.conditions.initial_feed_temperature = sc.t0
+            sc.conditions.initial_feed_composition = sc.x0
+            sc.mode, sc.tp, sc.pp = "V", None, None
+            sc.conditions.permeate_temperature = sc.conditions.permeate_pressure = None
+            sc.program = sc.conditions.temperature_program = None
+            sc.dt = 0.01
+            bundled = f"{mem.name}/{cs.name}"
     single = len(sc.curve_set.diffusion_curves) == 1
     tc = sc.curve_set.diffusion_curves[0].feed_temperature
     case = dict(sc.describe(), index=index, kind=kind)
@@ -108,7 +147,7 @@ def one_case(rep, spec, index):
     finally:
         pvmod.find_best_fit = orig_fbf
         Membrane.calculate_activation_energy = orig_ea
-    cls = f"{kind}|{'single' if single else 'multi'}" + ("@Tc" if single and sc.t0 == tc else "") + ("|Pinit" if sc.initial_permeances else "")
+    cls = f"{kind}|{'single' if single else 'multi'}" + ("@Tc" if single and sc.t0 == tc else "") + ("|Pinit" if sc.initial_permeances else "") + ("|bundled" if bundled else "")
     steps = n_pts + 1 if kind == "non_ideal_diffusion_curve" else sc.n
     rep.case(case, nontrivial=(status == "ok" and steps >= 2), cls=cls)
     rep.count("runs_" + status)
